@@ -6,6 +6,8 @@ import (
 	"crypto/x509/pkix"
 	"encoding/asn1"
 	"fmt"
+	"golang.org/x/crypto/cryptobyte"
+	cbasn1 "golang.org/x/crypto/cryptobyte/asn1"
 	"math/big"
 	"os"
 	"path/filepath"
@@ -571,6 +573,67 @@ func c06SizeBoundary(chk *fw.Check, dir string, tier string) (n int) {
 	return
 }
 
+// c06MustReject: shapes the reader has to refuse as a whole, outside the product of the shape grammar: every version
+// octet other than 0 (v1 written out) and 1 (v2), and entries which carry a critical extension this validator does not
+// implement (certificateIssuer of indirect lists, an unknown one) - at the first, a middle and the last entry.
+func c06MustReject(chk *fw.Check, dir string) (n int) {
+	p := world.Std()
+	hash := world.DefaultAlg(p.CA.Kind).Hash
+	for octet := 2; octet <= 255; octet++ {
+		for _, withExts := range []bool{true, false} {
+			s := world.SimpleCRL(p.CA, 7, 501, 502)
+			o := byte(octet)
+			s.RawVersion = &o
+			if !withExts {
+				s.Exts = nil
+			}
+			der := s.DER()
+			n++
+			what := fmt.Sprintf("version octet 0x%02x, crlExtensions=%v", octet, withExts)
+			if class, detail, _ := c06Compare(dir, der, der, true, true, hash, what); class != "" {
+				chk.Violation(fmt.Sprintf("C06|%s|unknown-version crlExtensions=%v", class, withExts), what+": "+detail, map[string]interface{}{"version_octet": octet, "crl_extensions": withExts})
+			}
+		}
+	}
+	certIssuer := func() pkix.Extension {
+		// certificateIssuer ::= GeneralNames, here one directoryName
+		var b cryptobyte.Builder
+		b.AddASN1(cbasn1.SEQUENCE, func(b *cryptobyte.Builder) {
+			b.AddASN1(cbasn1.Tag(4).ContextSpecific().Constructed(), func(b *cryptobyte.Builder) { b.AddBytes(p.OtherCA.Cert.RawSubject) })
+		})
+		return pkix.Extension{Id: asn1.ObjectIdentifier{2, 5, 29, 29}, Critical: true, Value: b.BytesOrPanic()}
+	}()
+	for _, kind := range []string{"certificateIssuer", "unknown"} {
+		ext := certIssuer
+		if kind == "unknown" {
+			ext = world.UnknownExt(true, 10)
+		}
+		for _, nEntries := range []int{1, 3, 30} {
+			for _, at := range []int{0, nEntries / 2, nEntries - 1} {
+				for _, enc := range []string{"DER", "PEM-LF"} {
+					serials := make([]int64, nEntries)
+					for i := range serials {
+						serials[i] = int64(600 + i)
+					}
+					s := world.SimpleCRL(p.CA, 7, serials...)
+					s.Entries[at].Exts = []pkix.Extension{world.ReasonExt(1), ext}
+					der := s.DER()
+					doc := der
+					if enc == "PEM-LF" {
+						doc = world.PEM(der, false)
+					}
+					n++
+					what := fmt.Sprintf("critical %s extension in entry %d of %d, %s", kind, at, nEntries, enc)
+					if class, detail, _ := c06Compare(dir, doc, der, true, true, hash, what); class != "" {
+						chk.Violation("C06|"+class+"|critical-entry-extension "+kind, what+": "+detail, map[string]interface{}{"kind": kind, "entry": at, "entries": nEntries, "encoding": enc})
+					}
+				}
+			}
+		}
+	}
+	return
+}
+
 // RunC06 is the entry point of the C06 check.
 func RunC06(tier string, args []string) int {
 	chk := fw.NewCheck("C06", tier, "exploration")
@@ -696,6 +759,8 @@ func RunC06(tier string, args []string) int {
 	}
 	sizeCases := c06SizeBoundary(chk, dir, tier)
 	evals += sizeCases
+	rejectCases := c06MustReject(chk, dir)
+	evals += rejectCases
 	os.RemoveAll(dir)
 	shortPlans, shortReads := c06ShortReads(chk, tier)
 	keys := outcomes.Keys()
@@ -714,6 +779,7 @@ func RunC06(tier string, args []string) int {
 		"single_dimension_cases":      single,
 		"alignment_cases":             sweep,
 		"element_size_boundary_cases": sizeCases,
+		"must_reject_cases":           rejectCases,
 		"short_read_plans":            shortPlans,
 		"short_read_positions":        shortReads,
 		"premise_false":               premiseFalse,
